@@ -13,6 +13,12 @@ pub enum J {
     Obj(BTreeMap<String, J>),
 }
 
+impl Default for J {
+    fn default() -> J {
+        J::Null
+    }
+}
+
 impl J {
     pub fn obj() -> J {
         J::Obj(BTreeMap::new())
